@@ -535,7 +535,7 @@ var (
 	gOverrides = [][]ovEntry{nil, {{"revocation", "skip"}}, {{"expiry", "log"}}, {{"authenticity", "log"}, {"authenticTimestamp", "log"}}}
 	gVTS       = []string{"", "always", "afterCertExpiry"}
 	gStores    = [][]string{{"ca:a"}, {"ca:a", "tsa:t"}, {"signingAuthority:s.1_x-"}}
-	gIds       = [][]string{{"*"}, {dnA}, {dnA, dnB}, {dnC, "unknown-prefix:x"}}
+	gIds       = [][]string{{"*"}, {dnA}, {dnA, dnB}, {dnC, "unknown-prefix:x"}, {"unknown-prefix:x"}, {"email:dev@example.com", "unknown-prefix:x"}}
 	gScopes0   = [][]string{{"*"}, {"reg.io/a"}, {"reg.io/a/b", "reg.io:5000/a/b"}}
 	gScopes1   = [][]string{{"*"}, {"other.io/lib/app_1.x-y"}, {"localhost/x1", "reg.io/b"}}
 )
@@ -842,6 +842,12 @@ func editsFor(base *docSpec) []edit {
 			} else {
 				viol("identity-wildcard-with-company", fmt.Sprintf("s%d/wildcard-appended", si), true, sl("ids"), func(d *docSpec) { d.Stmts[si].Ids = append(d.Stmts[si].Ids, "*") })
 				viol("identity-wildcard-with-company", fmt.Sprintf("s%d/wildcard-prepended", si), false, sl("ids"), func(d *docSpec) { d.Stmts[si].Ids = append([]string{"*"}, d.Stmts[si].Ids...) })
+				if len(bs.Ids) > 1 {
+					viol("identity-wildcard-with-company", fmt.Sprintf("s%d/wildcard-in-the-middle", si), false, sl("ids"), func(d *docSpec) {
+						ids := d.Stmts[si].Ids
+						d.Stmts[si].Ids = append(append(append([]string{}, ids[:1]...), "*"), ids[1:]...)
+					})
+				}
 				firstOverlap := true
 				for _, m := range idAlphabet {
 					if m.Kind != idX509 && m.Kind != idOther {
@@ -920,6 +926,16 @@ func editsFor(base *docSpec) []edit {
 				viol("scope-wildcard-with-company", fmt.Sprintf("s%d/wildcard-appended", si), true, sl("scopes"), func(d *docSpec) { d.Stmts[si].Scopes = append(d.Stmts[si].Scopes, "*") })
 				viol("scope-wildcard-with-company", fmt.Sprintf("s%d/wildcard-prepended", si), false, sl("scopes"), func(d *docSpec) { d.Stmts[si].Scopes = append([]string{"*"}, d.Stmts[si].Scopes...) })
 				keep("add-valid-scope", false, sl("scopes"), func(d *docSpec) { d.Stmts[si].Scopes = append(d.Stmts[si].Scopes, "zzz.io/z") })
+				for _, v := range composedValidScopes { // every valid repository form under every domain form
+					v := v
+					keep("add-valid-scope/"+v, false, sl("scopes"), func(d *docSpec) { d.Stmts[si].Scopes = append(d.Stmts[si].Scopes, v) })
+				}
+				if len(bs.Scopes) > 1 {
+					viol("scope-wildcard-with-company", fmt.Sprintf("s%d/wildcard-in-the-middle", si), false, sl("scopes"), func(d *docSpec) {
+						sc := d.Stmts[si].Scopes
+						d.Stmts[si].Scopes = append(append(append([]string{}, sc[:1]...), "*"), sc[1:]...)
+					})
+				}
 				if len(bs.Scopes) > 1 {
 					keep("reverse-scopes", true, sl("scopes"), func(d *docSpec) { d.Stmts[si].Scopes = reversed(d.Stmts[si].Scopes) })
 				}
@@ -1129,7 +1145,7 @@ func asmSingle(thorough bool) asmAlphabet {
 		Overrides: [][]ovEntry{nil, {{"revocation", "skip"}}, {{"expiry", "skip"}}, {{"integrity", "log"}}, {{"authenticity", "log"}, {"authenticTimestamp", "log"}}},
 		VTS:       []string{"", "always", "never"},
 		Stores:    [][]string{nil, {"ca:a"}, {"ca:a", "tsa:t"}, {"ca:a/b"}, {"x509:a"}},
-		Ids:       [][]string{nil, {"*"}, {dnA}, {dnA, dnB}, {dnAcn, dnA}, {dnA, "*"}, {""}, {dnNoST}},
+		Ids:       [][]string{nil, {"*"}, {dnA}, {dnA, dnB}, {dnAcn, dnA}, {dnA, "*"}, {""}, {dnNoST}, {"unknown-prefix:x", "*"}},
 		Scopes:    [][]string{nil, {"*"}, {"reg.io/a/b", "reg.io:5000/a/b"}, {"reg.io/a", "*"}, {"reg.io/A"}},
 	}
 	if thorough {
@@ -1137,8 +1153,8 @@ func asmSingle(thorough bool) asmAlphabet {
 		a.Overrides = append(a.Overrides, [][]ovEntry{{{"expiry", "log"}}, {{"Revocation", "log"}}, {{"revocation", "warn"}}, {{"revocation", "skip"}, {"authenticity", "skip"}}, {{"integrity", "enforce"}}}...)
 		a.VTS = append(a.VTS, "afterCertExpiry", "Always")
 		a.Stores = append(a.Stores, [][]string{{"signingAuthority:s.1_x-"}, {"ca:a", "a"}, {"ca:.."}, {"ca:"}}...)
-		a.Ids = append(a.Ids, [][]string{{dnA, dnAcn}, {"*", dnA}, {dnA, "nocolon"}, {dnC, "unknown-prefix:x"}, {dnA, dnAs}, {dnMulti}}...)
-		a.Scopes = append(a.Scopes, [][]string{{"reg.io/a"}, {"reg.io"}, {"https://reg.io/a"}}...)
+		a.Ids = append(a.Ids, [][]string{{dnA, dnAcn}, {"*", dnA}, {dnA, "nocolon"}, {dnC, "unknown-prefix:x"}, {dnA, dnAs}, {dnMulti}, {"*", "unknown-prefix:x"}, {"unknown-prefix:x"}, {dnA, "*", dnB}}...)
+		a.Scopes = append(a.Scopes, [][]string{{"reg.io/a"}, {"reg.io"}, {"https://reg.io/a"}, {"local/my-layout"}, {"local/my..layout"}}...)
 	}
 	return a
 }
